@@ -959,11 +959,14 @@ class CeiloChunk(AbstractChunk):
             # Keep track of what I just found ...
             self.groups.at[ind, 'ncomp'] = ncomp
 
-            # If I need to split it, assign suitable layer ids
+            # If I need to split it, assign suitable layer ids. These must never collide with
+            # the ids of the groups (that un-split groups pass on to their layer), which can
+            # exceed 100 when many slices are found.
             if ncomp > 1:
+                lid_offset = max(100, int(self._groups['cluster_id'].max()) + 1)
                 self.data.loc[self.data.loc[:, 'group_id'] ==
                               self._groups.at[ind, 'cluster_id'], 'layer_id'] = \
-                    100+10*ind+sub_layers_id
+                    lid_offset+10*ind+sub_layers_id
 
         # Deal with the points that have not been assigned a layer id yet
         to_fill = self.data['layer_id'].isna()
